@@ -2021,8 +2021,8 @@ func explainKQLFilter(sb *strings.Builder, filter *kqlFilter, indent string, dep
 
 	// Output the right side - could be a string literal or identifier
 	rightVal := filter.right
-	if (strings.HasPrefix(rightVal, "'") && strings.HasSuffix(rightVal, "'")) ||
-		(strings.HasPrefix(rightVal, "\"") && strings.HasSuffix(rightVal, "\"")) {
+	if len(rightVal) >= 2 && ((strings.HasPrefix(rightVal, "'") && strings.HasSuffix(rightVal, "'")) ||
+		(strings.HasPrefix(rightVal, "\"") && strings.HasSuffix(rightVal, "\""))) {
 		// String literal - remove quotes and escape for output
 		rightVal = rightVal[1 : len(rightVal)-1]
 		fmt.Fprintf(sb, "%s  Literal \\'%s\\'\n", indent, rightVal)
